@@ -16,6 +16,12 @@ import (
 	"time"
 
 	coreaddress "cosmossdk.io/core/address"
+	"cosmossdk.io/x/tx/signing"
+	"github.com/cosmos/cosmos-sdk/baseapp"
+	codectypes "github.com/cosmos/cosmos-sdk/codec/types"
+	"github.com/cosmos/cosmos-sdk/x/authz"
+	authzkeeper "github.com/cosmos/cosmos-sdk/x/authz/keeper"
+	"github.com/cosmos/gogoproto/proto"
 	sdkmath "cosmossdk.io/math"
 
 	"cosmossdk.io/log"
@@ -70,6 +76,7 @@ type env struct {
 	flt      *faulter
 	pkey     *storetypes.KVStoreKey // the x/paloma store (wiped by the genesis round trip)
 	dec      palomamodule.VerifyAuthorisedSignatureDecorator
+	authz    authzkeeper.Keeper // real x/authz keeper over a real message router with the paloma msg server
 }
 
 type fakeTx struct{ msgs []sdk.Msg }
@@ -198,7 +205,7 @@ func (fakeEVM) GetChainInfo(_ context.Context, c string) (*evmtypes.ChainInfo, e
 func newEnv(start time.Time) *env {
 	common.SetupPalomaPrefixes()
 	keys := storetypes.NewKVStoreKeys(
-		authtypes.StoreKey, banktypes.StoreKey, feegrant.StoreKey, paramstypes.StoreKey,
+		authtypes.StoreKey, banktypes.StoreKey, feegrant.StoreKey, paramstypes.StoreKey, authzkeeper.StoreKey,
 		palomatypes.StoreKey, skywaytypes.StoreKey,
 	)
 	tkeys := storetypes.NewTransientStoreKeys(paramstypes.TStoreKey)
@@ -250,6 +257,25 @@ func newEnv(start time.Time) *env {
 	e := &env{ctx: ctx, cdc: cdc, acc: acc, bank: bk, feegrant: fg, paloma: pal,
 		msg: palomakeeper.NewMsgServerImpl(*pal), skyway: sky, flt: flt, pkey: keys[palomatypes.StoreKey],
 		dec: palomamodule.NewVerifyAuthorisedSignatureDecorator(fg)}
+	// x/authz as app.go wires it: a codec that knows who signs a paloma message (metadata.signers),
+	// a message service router with the real paloma msg server and x/authz itself (nested MsgExec)
+	ir, err := codectypes.NewInterfaceRegistryWithOptions(codectypes.InterfaceRegistryOptions{
+		ProtoFiles: proto.HybridResolver,
+		SigningOptions: signing.Options{
+			AddressCodec:          address.NewBech32Codec(params2.AccountAddressPrefix),
+			ValidatorAddressCodec: address.NewBech32Codec(params2.ValidatorAddressPrefix),
+		},
+	})
+	if err != nil {
+		panic(err)
+	}
+	authz.RegisterInterfaces(ir)
+	palomatypes.RegisterInterfaces(ir)
+	router := baseapp.NewMsgServiceRouter()
+	router.SetInterfaceRegistry(ir)
+	palomatypes.RegisterMsgServer(router, e.msg)
+	e.authz = authzkeeper.NewKeeper(runtime.NewKVStoreService(keys[authzkeeper.StoreKey]), codec.NewProtoCodec(ir), router, acc)
+	authz.RegisterMsgServer(router, e.authz)
 	// the module account exists from genesis on a real chain
 	e.escrow = acc.GetModuleAccount(ctx, palomatypes.ModuleName).GetAddress()
 	return e
